@@ -398,3 +398,17 @@ Section VrankSegs.
     S i = length (vrank_segs pct rev xs).
   Proof. apply segs_of_write_last. Qed.
 End VrankSegs.
+
+(* ---- a corner where Model/Driver.v and view.rs differ (documented, see notes/C10.md) --------------------
+   The iterator body of rolling2_apply_idx is modelled over the ZIPPED series, so with window 0 and an empty
+   second series the model run is `Done []` whatever `xs` is; the code asserts on `self` and panics when `xs`
+   is non-empty.  No access is made on either side.                                                     *)
+Lemma resid_iterator_body_empty_second_series {A : Type} {NA : Num A} {T1 : Type} {D1 : IsNone T1 A}
+      {T2 : Type} {D2 : IsNone T2 A} (K : rstat) mp (xs : list T1) :
+  ts_vregx_resid (A := A) (D1 := D1) (D2 := D2) K false 0 mp xs (@nil T2) = Done []
+  /\ steps_ts_vregx_resid (A := A) (D1 := D1) (D2 := D2) K false 0 mp xs (@nil T2) = [].
+Proof.
+  unfold ts_vregx_resid, steps_ts_vregx_resid, rolling2_apply_idx_default. cbv zeta.
+  assert (Hc : combine xs (@nil T2) = []) by (destruct xs; reflexivity). rewrite Hc.
+  split; [reflexivity|]. cbn [andb]. apply kernel_steps_w0.
+Qed.
